@@ -290,6 +290,13 @@ fn gen(prop: &str, tier: &str, seed: u64) -> Vec<String> {
                 let kdf = if vn == "trailing_nul" { cheap[1] } else { *r.pick(&cheap) };
                 out.push(format!("pair\t{}\t{}\t{}\t{}\t{}\t{}\t{}\t{}", kind, comp, enc, mode, kdf_text(&kdf), if pw.is_empty() { String::new() } else { hex(pw.as_bytes()) }, ohex(&rd_pw), vn));
                 n_pairs += 1;
+                // the same with an EMPTY plaintext (seeded C16-6: a reader that skips the key derivation when the recorded
+                // size is 0).  Not for a wrong password under CTR without compression: zero ciphertext bytes decrypt to
+                // zero bytes under every key, so the plaintext does come back there.
+                let wrong = rd_pw.as_deref().map(|p| p != pw).unwrap_or(false);
+                if !wrong || mode == 0 || comp != 0 {
+                    out.push(format!("pair\t{}+empty\t{}\t{}\t{}\t{}\t{}\t{}\t{}", kind, comp, enc, mode, kdf_text(&kdf), if pw.is_empty() { String::new() } else { hex(pw.as_bytes()) }, ohex(&rd_pw), vn));
+                }
             }
         }
     }
@@ -772,7 +779,11 @@ fn run(c: &Case, oracle: &mut Vec<String>) -> String {
             out
         }
         "pair" => {
-            let kind = c.args[0].to_string();
+            // `<writer>+empty`: the plaintext is empty (an entry with nothing to decrypt must still ask for the key)
+            let (kind, pt): (String, &'static [u8]) = match c.args[0].strip_suffix("+empty") {
+                Some(k) => (k.to_string(), b""),
+                None => (c.args[0].to_string(), PT),
+            };
             let cfg = parse_cfg(c.args[1], c.args[2], c.args[3], c.args[4]);
             let pww = String::from_utf8(unhex(c.args[5]).unwrap_or_default()).unwrap_or_default();
             let pwr = arg_bytes(c.args[6]).map(|b| String::from_utf8(b).unwrap_or_default());
@@ -787,7 +798,7 @@ fn run(c: &Case, oracle: &mut Vec<String>) -> String {
                     if let Some(d) = decoy {
                         let _ = write_with(&k, &cfg, &d, &[("decoy".to_string(), b"decoy content".to_vec())], None);
                     }
-                    write_with(&k, &cfg, &p, &[("f0".to_string(), PT.to_vec())], None)
+                    write_with(&k, &cfg, &p, &[("f0".to_string(), pt.to_vec())], None)
                 })
             };
             let a = match w {
@@ -802,7 +813,7 @@ fn run(c: &Case, oracle: &mut Vec<String>) -> String {
                 let (a2, p2) = (a.clone(), pwr.clone());
                 match guard(move || lib_read(&a2, p2.as_deref())) {
                     Err(()) => "PANIC".to_string(),
-                    Ok(Ok(es)) if es.len() == 1 && es[0].1 == PT => "SAME".into(),
+                    Ok(Ok(es)) if es.len() == 1 && es[0].1 == pt => "SAME".into(),
                     Ok(Ok(_)) => "OTHER".into(),
                     // a missing password is refused before anything is decrypted; every other
                     // failure is the wrong key showing (padding, decompressor, inner structure)
